@@ -1,9 +1,97 @@
+import RsslVerif.Model.Layout
 import RsslVerif.Driver.Util
-/-! Line-protocol front end of the C19 model (stub until the model is built). -/
+/-!
+Line-protocol front end of the C19 model.
+
+`C19.check \t <use> \t <type>;<type>;…` → the verdict of `Model.Layout.checkAll` in the harness's
+observation syntax (see harness/src/c19.rs for the type syntax).
+-/
 namespace RsslVerif.Driver.C19
+open RsslVerif.Gen.LayoutTables RsslVerif.Model.Layout RsslVerif.Driver
+
+def tokens (s : String) : List String :=
+  let rec go (cs : List Char) (cur : List Char) (acc : List String) : List String :=
+    let flush := if cur.isEmpty then acc else String.ofList cur.reverse :: acc
+    match cs with
+    | [] => flush.reverse
+    | c :: r =>
+      if c == '{' || c == '}' || c == '[' || c == ']' then go r [] (String.singleton c :: flush)
+      else if c == ' ' then go r [] flush
+      else go r (c :: cur) acc
+  go s.toList [] []
+
+def scalarOf (c : Char) : Option Scalar :=
+  if c == 'h' then some .Float16 else if c == 'i' then some .Int32 else if c == 'u' then some .UInt32
+  else if c == 'f' then some .Float32 else if c == 'd' then some .Float64
+  else if c == 'b' then some .Bool else none
+
+def digit? (c : Char) : Option Nat :=
+  if '0' ≤ c ∧ c ≤ '9' then some (c.toNat - '0'.toNat) else none
+
+def leafOf (w : String) : Option Ty :=
+  if w == "ei" then some (.enum .Int32)
+  else if w == "eu" then some (.enum .UInt32)
+  else match w.toList with
+    | [c] => (scalarOf c).map .scalar
+    | [c, n] => do let s ← scalarOf c; let n ← digit? n; pure (.vec s n)
+    | [c, _, 'x', _] => (scalarOf c).map fun _ => .other .Matrix
+    | _ => none
+
+mutual
+partial def parseTy : List String → Option (Ty × List String)
+  | "{" :: r => do
+    let (ms, r) ← parseMembers r
+    pure (.struct (Tys.ofList ms), r)
+  | "[" :: n :: r => do
+    let n ← n.toNat?
+    let (t, r) ← parseTy r
+    match r with
+    | "]" :: r => pure (.arr t n, r)
+    | _ => none
+  | w :: r => (leafOf w).map fun t => (t, r)
+  | [] => none
+partial def parseMembers : List String → Option (List Ty × List String)
+  | "}" :: r => some ([], r)
+  | r => do
+    let (t, r) ← parseTy r
+    let (ts, r) ← parseMembers r
+    pure (t :: ts, r)
+end
+
+def parseType (s : String) : Option Ty :=
+  match parseTy (tokens s) with
+  | some (t, []) => some t
+  | _ => none
+
+def isStruct : Ty → Bool
+  | .struct _ => true
+  | _ => false
+
+/-- the diagnostic's location: structured-buffer globals always have one; a typed load/store is
+    reported at the struct's definition (`get_type_location`), unknown for other types -/
+def showIndex (use : String) (ts : List Ty) (i : Nat) : String :=
+  if use == "sb" || use == "rwsb" then toString i
+  else match ts[i]? with
+    | some t => if isStruct t then toString i else "?"
+    | none => "?"
+
+def showVerdict (use : String) (ts : List Ty) : Verdict → String
+  | .ok => "ok"
+  | .unknown i => "unknown@" ++ showIndex use ts i
+  | .mismatch i h m =>
+    "mismatch@" ++ showIndex use ts i ++ " hlsl=" ++ toString h.size ++ "/" ++ toString h.align ++
+      " metal=" ++ toString m.size ++ "/" ++ toString m.align
+  | .panic msg => "panic:" ++ msg
+
+def uses : List String := ["sb", "rwsb", "bload", "rwbload", "rwbstore", "baload", "rwbaload", "rwbastore"]
 
 def handle (op : String) (args : List String) : String :=
-  let _ := (op, args)
-  "unsupported-op"
+  match op, args with
+  | "C19.check", [use, tys] =>
+    if !uses.contains use then "bad-request" else
+    match sequenceOpt ((tys.splitOn ";").map parseType) with
+    | some ts => showVerdict use ts (checkAll ts)
+    | none => "bad-request"
+  | _, _ => "unsupported-op"
 
 end RsslVerif.Driver.C19
